@@ -250,6 +250,12 @@ def _corrupt(report, lab, lean, rng, quick, seed):
     hdr_len = 9 + _varlen(slen) + slen
     positions = list(range(0, min(9 + _varlen(slen) + 6, hdr_len)))
     positions += sorted(rng.sample(range(positions[-1] + 1, hdr_len), min(10 if quick else 80, hdr_len - positions[-1] - 1)))
+    # the format version (bytes 5..8, little endian): every value other than the one version that exists is unknown - smaller ones, larger
+    # ones, values that are negative when read as signed, values that are 1 in another byte order
+    for v in (0, 2, 3, 255, 256, 257, 0x01000000, 0x7FFFFFFF, 0x80000000, 0x80000001, 0xFFFFFFFF):
+        b = bytearray(ref)
+        b[5:9] = v.to_bytes(4, "little")
+        _feed(report, lab, lean, pname, bytes(b), f"corrupt:version={v}@5", seed)
     for pos in positions:
         for kind in ("flip", "delete", "insert", "truncate"):
             b = bytearray(ref)
